@@ -126,7 +126,7 @@ def check_c03(rec):
         if (s['traits'] & req) != req:
             out.append(V('C03', 'assigned-missing-traits:' + via,
                          '%s needs traits %d, %s offers %d' % (name, req, after, s['traits'])))
-        if a['lease'] and not rec['t_lo'] + a['lease'] < s['valid_until']:
+        if a['lease'] and s['valid_until'] and not rec['t_lo'] + a['lease'] < s['valid_until']:
             out.append(V('C03', 'assigned-lease-beyond-reboot:' + via,
                          '%s lease %s at t=%.3f on %s valid_until %.3f' % (
                              name, a['lease'], rec['t_lo'], after, s['valid_until'])))
@@ -136,7 +136,7 @@ def check_c03(rec):
             continue
         a = H.apps[name]
         s = H.servers.get(after)
-        if s is None or not a['lease'] or ea is None:
+        if s is None or not a['lease'] or ea is None or not s['valid_until']:
             continue
         if ea != eb and before == after and ea >= s['valid_until'] + 1e-6:
             out.append(V('C03', 'renewed-lease-beyond-reboot',
